@@ -246,6 +246,8 @@ pub fn c13(tier: Tier) -> i32 {
     let (acc, sizes) = run_family(&C13, tier);
     absorb_family(&mut rep, acc, sizes, t0);
     crate::docu::run(&mut rep, tier, &["tok-small", "stmt-small", "decor", "dt", "edge", "corpus"], &c13_doc_eval);
+    // toml::Value trees (mixed arrays, arrays of tables, empty containers, two levels) as the serializable values
+    value_trees(&mut rep, tier, true);
     rep.finish()
 }
 
@@ -335,6 +337,8 @@ fn ek_value(k: EK, depth: usize) -> toml::Value {
             if depth > 0 {
                 t.insert("sub".into(), ek_value(EK::Table, depth - 1));
                 t.insert("a".into(), ek_value(EK::Aot, depth - 1));
+                // a mixed array BELOW the root goes through toml::Value's own Serialize impl, not Table's
+                t.insert("m".into(), ek_value(EK::MixedArray, depth - 1));
             }
             V::Array(vec![V::Table(t.clone()), V::Table(t)])
         }
@@ -349,6 +353,8 @@ fn ek_value(k: EK, depth: usize) -> toml::Value {
             if depth > 0 {
                 t.insert("b".into(), ek_value(EK::Aot, depth - 1));
                 t.insert("a".into(), ek_value(EK::Table, depth - 1));
+                t.insert("m".into(), ek_value(EK::MixedArray, depth - 1));
+                t.insert("e".into(), ek_value(EK::EmptyArray, depth - 1));
                 t.insert("c".into(), V::Integer(3));
             }
             V::Table(t)
@@ -356,7 +362,7 @@ fn ek_value(k: EK, depth: usize) -> toml::Value {
     }
 }
 
-fn value_trees(rep: &mut Report, tier: Tier) {
+fn value_trees(rep: &mut Report, tier: Tier, c13: bool) {
     let t0 = std::time::Instant::now();
     let kinds = [EK::Scalar, EK::Array, EK::Aot, EK::Table, EK::MixedArray, EK::EmptyTable, EK::EmptyArray];
     let keys = ["a", "b", "c", "d"];
@@ -403,6 +409,54 @@ fn value_trees(rep: &mut Report, tier: Tier) {
         let label = format!("insertion order {:?} kinds {:?} depth {}", perms[pi].iter().map(|i| keys[*i]).collect::<Vec<_>>(), assign, depth);
         acc.nontrivial(label.as_bytes());
         let v = toml::Value::Table(t.clone());
+        if c13 {
+            // C13: the tree itself is a serializable value; every conversion route must reproduce it
+            let cv = |x: &toml::Value| crate::real::canon_toml_value(x, true);
+            let r = guarded(|| -> Result<(), String> {
+                let want = cv(&v);
+                let a = toml::Value::try_from(&v).map_err(|e| format!("Value::try_from(&Value) fails: {}", e))?;
+                if cv(&a) != want || a != v {
+                    return Err(format!("Value::try_from(&v) = {} but v = {}", cv(&a), want));
+                }
+                let b = toml::Table::try_from(&t).map_err(|e| format!("Table::try_from(&Table) fails: {}", e))?;
+                if crate::real::canon_toml_table(&b, true) != want {
+                    return Err(format!("Table::try_from(&t) = {} but t = {}", crate::real::canon_toml_table(&b, true), want));
+                }
+                let b2 = toml::Table::try_from(&v).map_err(|e| format!("Table::try_from(&Value::Table) fails: {}", e))?;
+                if crate::real::canon_toml_table(&b2, true) != want {
+                    return Err(format!("Table::try_from(&Value::Table(t)) = {} but t = {}", crate::real::canon_toml_table(&b2, true), want));
+                }
+                let c = v.clone().try_into::<toml::Table>().map_err(|e| format!("Value::try_into::<Table> fails: {}", e))?;
+                if crate::real::canon_toml_table(&c, true) != want {
+                    return Err("Value::try_into::<Table> changes the tree".into());
+                }
+                for (sname, text) in [("toml::to_string(&Value)", toml::to_string(&v).map_err(|e| e.to_string())?), ("toml::to_string(&Table)", toml::to_string(&t).map_err(|e| e.to_string())?), ("toml::to_string_pretty(&Value)", toml::to_string_pretty(&v).map_err(|e| e.to_string())?), ("toml_edit::ser::to_string(&Value)", toml_edit::ser::to_string(&v).map_err(|e| e.to_string())?)] {
+                    let routes: Vec<(&'static str, Result<toml::Value, String>)> = vec![
+                        ("toml::from_str::<Value>", toml::from_str::<toml::Value>(&text).map_err(|e| e.message().to_string())),
+                        ("toml::from_str::<Table>", toml::from_str::<toml::Table>(&text).map(toml::Value::Table).map_err(|e| e.message().to_string())),
+                        ("toml_edit::de::from_str::<Value>", toml_edit::de::from_str::<toml::Value>(&text).map_err(|e| e.message().to_string())),
+                        ("from_document(DocumentMut)", text.parse::<toml_edit::DocumentMut>().map_err(|e| e.message().to_string()).and_then(|d| toml_edit::de::from_document::<toml::Value>(d).map_err(|e| e.message().to_string()))),
+                    ];
+                    for (rname, got) in routes {
+                        match got {
+                            Ok(x) if cv(&x) == want => {}
+                            Ok(x) => return Err(format!("{} then {} gives {} instead of {} (text {:?})", sname, rname, cv(&x), want, text)),
+                            Err(e) => return Err(format!("{} then {} fails: {} (text {:?})", sname, rname, e, text)),
+                        }
+                    }
+                }
+                Ok(())
+            });
+            match r {
+                Ok(Ok(())) => {
+                    acc.bump("value-tree-routes-agree");
+                    acc.sample(|| label.clone());
+                }
+                Ok(Err(e)) => acc.viol("U-value-tree", label, None, e),
+                Err(p) => acc.viol("U-value-tree", label, None, format!("panic: {}", p)),
+            }
+            return;
+        }
         let r = guarded(|| -> Result<(), String> {
             for (name, text) in [("toml::to_string", toml::to_string(&v).map_err(|e| e.to_string())?), ("Table::to_string", t.to_string()), ("toml::to_string_pretty", toml::to_string_pretty(&v).map_err(|e| e.to_string())?)] {
                 valid(&text).map_err(|e| format!("{} output {:?} is {}", name, text, e))?;
@@ -453,7 +507,7 @@ pub fn c17(tier: Tier) -> i32 {
     let t0 = std::time::Instant::now();
     let (acc, sizes) = run_family(&C17, tier);
     absorb_family(&mut rep, acc, sizes, t0);
-    value_trees(&mut rep, tier);
+    value_trees(&mut rep, tier, false);
     // the insertion-ordered configuration: the same value-tree enumeration (every insertion order really is a different
     // map there) and the parse -> print -> parse battery, run by the cfg engine's binary built with `preserve_order`
     {
